@@ -15,7 +15,9 @@ API documentation in dbus-connection.c / dbus-pending-call.c:
     pending call times out"
 
 Only what is promised is judged; everything timing dependent is judged from logical conditions (sequence
-numbers, and timestamps only in the direction that cannot be caused by a slow machine).
+numbers, and timestamps only in the direction that cannot be caused by a slow machine).  The one place where a
+waiting time is part of the verdict is the multi-blocker section at the end of this file ("a reply that has arrived
+completes its call"), and it says why that watch cannot be expired by load.
 """
 import collections
 
@@ -305,10 +307,14 @@ def judge_multi_blocker_stuck(result, peer, mb):
     replied = written_replies(peer)
     blockers = result.get("blockers", [])
     returned = sorted(b["c"] for b in blockers if b["blk"] == 2)
-    lag_ms = (result.get("now_us", 0) - result.get("first_return_us", 0)) // 1000
     seen = set()
     for b in blockers:
         if b["blk"] != 1:
+            continue
+        # the wait has gone on for the whole watch, counted from the first return of the case or from its own start
+        waited = (result.get("now_us", 0) - max(result.get("first_return_us", 0), b.get("beg_us", 0))) // 1000
+        if waited < result.get("watch_ms", mb["watch_ms"]):
+            cnt["mb-late-starter-still-waiting"] += 1
             continue
         cnt["mb-stuck-blockers"] += 1
         if b["c"] not in replied:
@@ -323,7 +329,7 @@ def judge_multi_blocker_stuck(result, peer, mb):
                          "the blocking wait of thread %d on call %d (timeout %s) had not returned %d ms after the blocking wait(s) on call(s) %r "
                          "of the same connection returned, although the peer had written the replies to calls %r in one write() (and nothing "
                          "afterwards): the reply has arrived and does not complete its call (get_completed=%d)"
-                         % (b["tid"], b["c"], "none" if b["timeout"] == INFINITE else "%d ms" % b["timeout"], lag_ms, returned,
+                         % (b["tid"], b["c"], "none" if b["timeout"] == INFINITE else "%d ms" % b["timeout"], waited, returned,
                             sorted(replied), b.get("completed", -1)), b["c"]))
     return F, cnt
 
@@ -358,6 +364,11 @@ def judge_multi_blocker(result, peer, mb, writes, t_written_us):
             if any(t != INFINITE for t in mb["timeouts"]):
                 cnt["mb-handover-cases:finite"] += 1
     if len(ends) >= 2:
-        lag = (max(ends.values()) - min(ends.values())) / 1000.0
-        cnt["mb-return-spread:" + ("<=10ms" if lag <= 10 else "<=100ms" if lag <= 100 else "<=1s" if lag <= 1000 else ">1s")] += 1
+        # how long a blocking wait went on after the replies had demonstrably arrived (= after the first return of the
+        # case) - counted from its own start if it started later.  This is the quantity the harness's watch bounds.
+        first_end = min(ends.values())
+        lag = max((ends[c] - max(begs.get(c, 0), first_end)) / 1000.0 for c in ends)
+        cnt["mb-completion-lag:" + ("<=10ms" if lag <= 10 else "<=100ms" if lag <= 100 else "<=300ms" if lag <= 300 else
+                                    "<=1s" if lag <= 1000 else "<=2.5s" if lag <= 2500 else ">2.5s")] += 1
+        cnt["mb-completion-lag-max-ms"] = int(lag)
     return cnt
